@@ -240,6 +240,8 @@ type expectation struct {
 	rootsFree  bool // garbage CA file: error or pool-without-it
 	rootsNil   bool // nothing supplied: system pool (RootCAs nil)
 	rootsClass string
+	// coarse classes used in signatures that do not depend on the slot contents
+	idKind, rootsKind string
 	// scalar
 	insecure bool
 }
@@ -313,6 +315,27 @@ func expect(p Point) expectation {
 	if p.Pool == "system+ca2" {
 		e.rootsClass += "(system-derived)"
 	}
+	switch {
+	case p.CertFile != "":
+		e.idKind = "cert-file"
+	case p.LoadedCert != "":
+		e.idKind = "loaded-cert"
+	default:
+		e.idKind = e.idClass
+	}
+	switch {
+	case p.LoadedCA != "":
+		e.rootsKind = "loaded-ca"
+	case p.CAFile != "":
+		e.rootsKind = "ca-file"
+	case p.Pool != "":
+		e.rootsKind = "pool-only"
+	default:
+		e.rootsKind = "none-supplied"
+	}
+	if p.Pool != "" && e.rootsKind != "pool-only" {
+		e.rootsKind += "+pool"
+	}
 	// "ServerName ... If this field is set then InsecureSkipVerify will be ignored and treated as false."
 	e.insecure = p.Insecure && p.ServerName == ""
 	return e
@@ -367,7 +390,7 @@ func inspect(p Point, cfg *tls.Config, err error, h *handles, mat *material, ent
 		case e.idFree || e.rootsFree:
 			classes = append(classes, "error-in-unjudged-zone")
 		default:
-			add("unexpected-error/"+e.idClass+"/"+e.rootsClass, "returned error %q although every supplied option is usable (identity: %s, roots: %s)", err, e.idClass, e.rootsClass)
+			add("unexpected-error/"+e.idKind+"/"+e.rootsKind, "returned error %q although every supplied option is usable (identity: %s, roots: %s)", err, e.idClass, e.rootsClass)
 		}
 		return
 	}
@@ -520,49 +543,97 @@ func call(entry string, o client.TLSClientOptions) (cfg *tls.Config, err error, 
 }
 
 type worker struct {
-	m   *mon.M
-	mat *material
-	srv map[string]*server
+	m         *mon.M
+	mat       *material
+	srv       map[string]*server
+	minimised map[string]int
 }
 
-func report(m *mon.M, fs []finding, c *Case) {
+// evalPoint calls one entry point for the point and judges the result (no side effects on the monitor).
+func (w *worker) evalPoint(p Point, entry string) (fs []finding, classes []string, err error, ok bool) {
+	o, h := build(p, w.mat)
+	var cfg *tls.Config
+	var shape string
+	pv, stk := mon.Catch(func() { cfg, err, shape = call(entry, o) })
+	if pv != nil {
+		return []finding{{"panic/" + entry, fmt.Sprintf("%s panicked: %v\n%s", entry, pv, stk)}}, nil, nil, false
+	}
+	if shape != "" {
+		return []finding{{"wrapper-shape/" + entry, shape}}, nil, nil, false
+	}
+	fs, classes = inspect(p, cfg, err, h, w.mat, entry)
+	return fs, classes, err, err == nil && cfg != nil
+}
+
+// minimisePoint greedily unsets slots while the same signature keeps firing.
+func minimisePoint(p Point, fires func(Point) bool) Point {
+	cur := p
+	muts := []func(*Point){
+		func(q *Point) { q.TicketsDisabled = false }, func(q *Point) { q.SessionCache = false }, func(q *Point) { q.Callback = "" },
+		func(q *Point) { q.Pool = "" }, func(q *Point) { q.CAFile = "" }, func(q *Point) { q.LoadedCA = "" },
+		func(q *Point) { q.LoadedKey = "" }, func(q *Point) { q.LoadedCert = "" }, func(q *Point) { q.KeyFile = "" }, func(q *Point) { q.CertFile = "" },
+		func(q *Point) { q.Insecure = false }, func(q *Point) { q.ServerName = "" },
+		func(q *Point) { // a system-derived pool where a plain one shows the same
+			if q.Pool == "system+ca2" {
+				q.Pool = "ca2"
+			}
+		},
+	}
+	for pass := 0; pass < 2; pass++ {
+		for _, mu := range muts {
+			q := cur
+			mu(&q)
+			if q != cur && fires(q) {
+				cur = q
+			}
+		}
+	}
+	return cur
+}
+
+func (w *worker) firstFew(sig string) bool {
+	if w.minimised == nil {
+		w.minimised = map[string]int{}
+	}
+	w.minimised[sig]++
+	return w.minimised[sig] <= 3
+}
+
+// inspectPoint runs the configuration inspection of one point through one entry point.
+func (w *worker) inspectPoint(p Point, entry string) (ok bool) {
+	m := w.m
+	fs, classes, err, ok := w.evalPoint(p, entry)
+	m.Eval(1)
+	for _, k := range classes {
+		m.Class(entry + ":" + k)
+	}
 	seen := map[string]bool{}
 	for _, f := range fs {
 		if seen[f.sig] {
 			continue
 		}
 		seen[f.sig] = true
-		m.Violate(f.sig, f.detail, c)
+		if !w.firstFew(f.sig) {
+			m.Violate(f.sig, f.detail, nil) // counted; the harness keeps only the first few witnesses per sig
+			continue
+		}
+		sig, detail := f.sig, f.detail
+		mp := minimisePoint(p, func(q Point) bool {
+			qfs, _, _, _ := w.evalPoint(q, entry)
+			for _, qf := range qfs {
+				if qf.sig == sig {
+					detail = qf.detail
+					return true
+				}
+			}
+			return false
+		})
+		m.Violate(sig, detail, &Case{Point: &mp, Entry: entry})
 	}
-}
-
-// inspectPoint runs the configuration inspection of one point through one entry point.
-func (w *worker) inspectPoint(p Point, entry string) (ok bool) {
-	m := w.m
-	o, h := build(p, w.mat)
-	var cfg *tls.Config
-	var err error
-	var shape string
-	pv, stk := mon.Catch(func() { cfg, err, shape = call(entry, o) })
-	m.Eval(1)
-	c := &Case{Point: &p, Entry: entry}
-	if pv != nil {
-		m.Violate("panic/"+entry, fmt.Sprintf("%s panicked: %v\n%s", entry, pv, stk), c)
-		return false
-	}
-	if shape != "" {
-		m.Violate("wrapper-shape/"+entry, shape, c)
-		return false
-	}
-	fs, classes := inspect(p, cfg, err, h, w.mat, entry)
-	for _, k := range classes {
-		m.Class(entry + ":" + k)
-	}
-	report(m, fs, c)
 	if m.WantSample() {
-		m.Sample(map[string]interface{}{"case": c, "error": fmt.Sprint(err), "findings": len(fs), "expected": describe(expect(p))})
+		m.Sample(map[string]interface{}{"case": &Case{Point: &p, Entry: entry}, "error": fmt.Sprint(err), "findings": len(fs), "expected": describe(expect(p))})
 	}
-	return err == nil && cfg != nil
+	return ok
 }
 
 func describe(e expectation) string {
